@@ -355,6 +355,9 @@ class SceneGraph:
             b_attr = nodes[b]
             # make sure we're not stomping on original
             attr_new = attr.copy()
+            # the node is the source of truth for geometry: drop any
+            # reference on the edge that the node no longer has
+            attr_new.pop("geometry", None)
             # apply node geometry to edge attributes
             if "geometry" in b_attr:
                 attr_new["geometry"] = b_attr["geometry"]
